@@ -1,7 +1,7 @@
 (* C15 — automatic reconnection restores service after loss and stops on request.
    Statements only (restated verbatim from Proofs/*.v), each closed by [exact]. *)
 From Coq Require Import ZArith List Bool Permutation.
-From WS Require Import Base.Res Base.Bytes Spec.Frame Spec.Legal Spec.AppTrace Gen.GenAbnf Model.Recv Model.Conn Model.App Proofs.RecvSpec Proofs.ConnSpec Proofs.ConnProof Proofs.AppProof Gen.GenApp Proofs.AppGen.
+From WS Require Import Base.Res Base.Bytes Spec.Frame Spec.Legal Spec.AppTrace Gen.GenAbnf Model.Recv Model.Conn Model.App Proofs.RecvSpec Proofs.ConnSpec Proofs.ConnProof Proofs.AppProof Gen.GenApp Proofs.AppGen Proofs.AppGuard.
 Import ListNotations.
 Open Scope Z_scope.
 
@@ -27,6 +27,16 @@ Theorem C15_stop : forall cfg env1 env2, env1 <> [] -> run_ended cfg env1 ->
   run_forever cfg (env1 ++ env2) = run_forever cfg env1.
 Proof. exact AppProof.C15_stop. Qed.
 Print Assumptions C15_stop.
+
+(* the run with setSock's regenerated refusal (reconnecting after close()) in front of every attempt is the run the other theorems are about: in sequential histories the refusal is never reached *)
+Theorem C15_guarded_run_is_the_run : forall cfg env, run_forever_g cfg env = run_forever cfg env.
+Proof. exact AppGuard.run_forever_g_eq. Qed.
+Print Assumptions C15_guarded_run_is_the_run.
+
+(* asked to reconnect once keep_running is cleared, setSock does nothing: no connection attempt, no callback *)
+Theorem C15_no_attempt_after_close : forall cfg a s, keep_running s = false -> set_sock_g cfg a true s = (Normal, s).
+Proof. exact AppGuard.set_sock_g_refuses. Qed.
+Print Assumptions C15_no_attempt_after_close.
 
 (* CODE TIE: the outer loop asks for a reconnection exactly when setSock's regenerated first test (reconnecting and not keep_running: return) would not refuse it *)
 Theorem C15_reconnect_guard_is_the_code : forall cfg a rest r s,
